@@ -65,7 +65,12 @@ fn gen_model(ch: &mut Ch, params: &[wasmparser::ValType], results: &[wasmparser:
 }
 
 /// Emit the body for `model` through the builder.
-fn build_body(body: &mut InstrSeqBuilder, args: &[LocalId], model: &[RModel], param_types: &[ValType], read_mask: u64, scratch: Option<LocalId>) {
+fn build_body(body: &mut InstrSeqBuilder, args: &[LocalId], model: &[RModel], param_types: &[ValType], read_mask: u64, scratch: Option<LocalId>, drop_data: Option<DataId>) {
+    // dropping an active data segment is a no-op at run time (it was dropped
+    // at instantiation) but makes the body one that needs a data-count section
+    if let Some(d) = drop_data {
+        body.data_drop(d);
+    }
     // a scratch local allocated before the replacement (its id is smaller
     // than those of the fresh argument locals)
     if let Some(s) = scratch {
@@ -249,6 +254,12 @@ pub fn check(ctx: &Ctx, input: &Input) -> CaseResult {
         };
         let fid = shared_id.lock().unwrap().unwrap();
         let scratch = if read_mask & 4 != 0 { Some(m.locals.add(ValType::I32)) } else { None };
+        // only active segments: dropping a passive one would change later memory.init
+        let drop_data: Option<DataId> = if read_mask & 32 != 0 {
+            m.data.iter().find(|d| matches!(d.kind, DataKind::Active { .. })).map(|d| d.id())
+        } else {
+            None
+        };
         let model2 = model.clone();
         let pt = param_types.clone();
         // a quarter of the cases re-home the import first (delete it, add it
@@ -269,7 +280,7 @@ pub fn check(ctx: &Ctx, input: &Input) -> CaseResult {
             }
         }
         let r = guard("replace_imported_func", || {
-            m.replace_imported_func(fid, |(body, args)| build_body(body, args, &model2, &pt, read_mask, scratch))
+            m.replace_imported_func(fid, |(body, args)| build_body(body, args, &model2, &pt, read_mask, scratch, drop_data))
         })?;
         let new_id = match r {
             Ok(id) => id,
@@ -391,11 +402,17 @@ pub fn check(ctx: &Ctx, input: &Input) -> CaseResult {
         };
         let fid = shared_id.lock().unwrap().unwrap();
         let scratch = if read_mask & 4 != 0 { Some(m.locals.add(ValType::I32)) } else { None };
+        // only active segments: dropping a passive one would change later memory.init
+        let drop_data: Option<DataId> = if read_mask & 32 != 0 {
+            m.data.iter().find(|d| matches!(d.kind, DataKind::Active { .. })).map(|d| d.id())
+        } else {
+            None
+        };
         let model2 = model.clone();
         let pt = param_types.clone();
         let export_is_sole_declaration = crate::edits::sole_declaring_exports(&m).contains(&fid);
         let r = guard("replace_exported_func", || {
-            m.replace_exported_func(fid, |(body, args)| build_body(body, args, &model2, &pt, read_mask, scratch))
+            m.replace_exported_func(fid, |(body, args)| build_body(body, args, &model2, &pt, read_mask, scratch, drop_data))
         })?;
         if r.is_err() && target < da.imp_funcs.len() as u32 {
             out.label("re-exported-import:replacement-refused");
